@@ -5,7 +5,8 @@ import AslModel.Model.Isa.I8080Z
 (2 = 8080, 3 = 8085); protocol: `Driver/C14.lean`.  The operand list of a request is a sequence of pairs `kind value`:
 0 = 8-bit register name (`B C D E H L M A` = 0..7), 1 = `BC DE HL SP`, 2 = `(BC) (DE) (HL) (SP)`, 3 = `(nn)`, 4 = number,
 5 = `AF`, 6 = `IM`, 7 = condition `NZ Z NC C PO PE P M`.  SPEC = the Intel opcode map of `Spec/Isa/I8080.lean` applied to the
-8080 spelling of the statement (`Spec.I8080Z.intel`). -/
+8080 spelling of the statement (`Spec.I8080Z.intel`).  A request outside `Spec.I8080Z.canonical` (the hypothesis of the theorems in
+`Props/C14_8080Z.lean`) is not judged: the check reports it as a failure of the generator. -/
 namespace Driver.C14
 open AslModel AslModel.Isa
 
@@ -28,6 +29,8 @@ def h8080Z (cpu : Nat) (mn : String) (args : List Int) (real : String) : String 
     let c := cpu % 2
     let s : Src := ⟨m, os⟩
     let model := Isa.I8080Z.encode excl c s
+    -- the theorems `C14_8080z_sound` / `C14_8080z_range` have the hypothesis `canonical`; the generator must stay inside it
+    if !canonical excl s then "out-of-scope: not a canonical spelling (Spec.I8080Z.canonical), the theorems do not cover it" else
     answer (legal excl c s) model real
       (fun bs => match meaning excl s with
         | some i => Spec.I8080.decode c bs == some (i, bs.length)
